@@ -44,8 +44,8 @@ VARIABLES
 vars == <<native, world, journal, snaps, nextId, lastSnap, synced, syncAt, acl, phase, base, wasSynced, outcome, nops>>
 
 Init ==
-  /\ native \in [Addr -> {0, 5}]
-  /\ world \in [Addr -> {0, 7}]            \* whatever earlier blocks left in the EVM copy
+  /\ native = [a \in Addr |-> 5]
+  /\ world = [a \in Addr |-> 7]            \* whatever earlier blocks left in the EVM copy: stale
   /\ journal = <<>> /\ snaps = <<>> /\ nextId = 0 /\ lastSnap = 0
   /\ synced = [a \in Addr |-> 0] /\ syncAt = [a \in Addr |-> 0] /\ acl = {}
   /\ phase = "idle" /\ base = native /\ wasSynced = {} /\ outcome = "none" /\ nops = 0
@@ -143,7 +143,7 @@ Next ==
   \/ \E f, t \in Addr : f # t /\ TxBegin(f, t)
   \/ Snapshot
   \/ \E a \in Addr : Access(a)
-  \/ \E a \in Addr, v \in {0, 3, 9} : Write(a, v)
+  \/ \E a \in Addr, v \in {0, 9} : Write(a, v)
   \/ \E i \in 2..4 : Revert(i)
   \/ TxEndOK \/ TxEndFail
 
